@@ -1,5 +1,5 @@
 """pyvc: contract-based deductive verification of real Python functions (ast -> verification conditions -> z3/cvc5)."""
-from .types import (T, INT, BOOL, BYTES, STR, NONE, ANY, OPT, LIST, SET, MAP, TUPLE, CLS, Outside, Registry)
+from .types import (T, INT, BOOL, BYTES, STR, NONE, ANY, OPT, LIST, SET, MAP, TUPLE, CLS, ARR, Outside, Registry)
 from .engine import V, Ref, State
 from .spec import Contract, ContractSet, LoopSpec
 from .verify import Verifier, StateShape
